@@ -3,6 +3,7 @@ package main
 // E1 (paths on the SSA CFG) and small SSA helpers shared by all rules.
 
 import (
+	"fmt"
 	"go/constant"
 	"go/token"
 	"go/types"
@@ -775,4 +776,110 @@ func retVals(ret *ssa.Return) []ssa.Value {
 func isRecoverReturn(ret *ssa.Return) bool {
 	f := ret.Parent()
 	return f.Recover != nil && ret.Block() == f.Recover
+}
+
+// atomStr renders a value structurally (parameters by name, field paths,
+// short callee names, constants) so facts can be compared with expectations.
+func atomStr(v ssa.Value) string {
+	return atomStrD(v, 0)
+}
+
+func atomStrD(v ssa.Value, d int) string {
+	if v == nil || d > 8 {
+		return "?"
+	}
+	switch x := v.(type) {
+	case *ssa.Const:
+		if x.Value == nil {
+			return "nil"
+		}
+		return x.Value.ExactString()
+	case *ssa.Parameter:
+		return "$" + x.Name()
+	case *ssa.FreeVar:
+		return "$" + x.Name()
+	case *ssa.Global:
+		return x.Name()
+	case *ssa.Convert:
+		return atomStrD(x.X, d+1)
+	case *ssa.ChangeType:
+		return atomStrD(x.X, d+1)
+	case *ssa.MakeInterface:
+		return atomStrD(x.X, d+1)
+	case *ssa.ChangeInterface:
+		return atomStrD(x.X, d+1)
+	case *ssa.BinOp:
+		return atomStrD(x.X, d+1) + x.Op.String() + atomStrD(x.Y, d+1)
+	case *ssa.Extract:
+		return atomStrD(x.Tuple, d+1) + "#" + string(rune('0'+x.Index))
+	case *ssa.Call:
+		n := calleeName(x)
+		if i := strings.LastIndex(n, "."); i >= 0 {
+			n = n[i+1:]
+		}
+		var as []string
+		for _, a := range callArgs(x) {
+			as = append(as, atomStrD(a, d+1))
+		}
+		return n + "(" + strings.Join(as, ",") + ")"
+	case *ssa.UnOp:
+		if x.Op == token.MUL {
+			root, p := fieldPath(x)
+			rr := resolveVal(root)
+			if rr != ssa.Value(x) {
+				base := atomStrD(rr, d+1)
+				if len(p) > 0 {
+					return base + "." + strings.Join(p, ".")
+				}
+				return base
+			}
+			return "*" + atomStrD(x.X, d+1)
+		}
+		return x.Op.String() + atomStrD(x.X, d+1)
+	case *ssa.Field:
+		root, p := fieldPath(x)
+		return atomStrD(resolveVal(root), d+1) + "." + strings.Join(p, ".")
+	case *ssa.FieldAddr:
+		root, p := fieldPath(x)
+		return "&" + atomStrD(resolveVal(root), d+1) + "." + strings.Join(p, ".")
+	case *ssa.Alloc:
+		if sts := storesTo(x); len(sts) == 1 {
+			return atomStrD(sts[0].Val, d+1)
+		}
+		if x.Comment != "" {
+			return x.Comment
+		}
+		return "local"
+	case *ssa.Phi:
+		if x.Comment != "" {
+			return "phi:" + x.Comment
+		}
+		return "phi"
+	}
+	return v.Name()
+}
+
+// factStrs: the facts holding at site as "atom=true|false" strings.
+func factStrs(fn *ssa.Function, site ssa.Instruction) map[string]bool {
+	out := map[string]bool{}
+	for _, f := range factsAt(fn, site) {
+		out[fmt.Sprintf("%s=%v", atomStr(f.cond), f.truth)] = true
+		if _, isPhi := f.cond.(*ssa.Phi); isPhi && f.truth {
+			// a && b && c known true: every conjunct is known true
+			for _, g := range conjuncts(fn, f.cond, 0) {
+				out[fmt.Sprintf("%s=%v", atomStr(g.cond), g.truth)] = true
+			}
+		}
+	}
+	return out
+}
+
+func hasFact(fs map[string]bool, substr string, truth bool) bool {
+	suffix := fmt.Sprintf("=%v", truth)
+	for k := range fs {
+		if strings.HasSuffix(k, suffix) && strings.Contains(k, substr) {
+			return true
+		}
+	}
+	return false
 }
